@@ -24,7 +24,8 @@ TIERS = {
 }
 RULE = ("one run = seeded history (<= 14 ops) of build / lookup / repeat / one-shot / faulted lookup / drop over "
         "<= 3 live SymdelDB / LookupDB objects; strings: short (length 0-7 over 2-3 letters) or clonal families "
-        "(seed 8-14, <= 3 edits, <= 30 members), duplicates and equal-position hits forced; fault-free and "
+        "(seed 8-14, <= 3 edits, <= 30 members), 'long' families (seed 33-70, <= 8 members, k <= 2) and 'big' collections "
+        "(60-200 short strings); duplicates and equal-position hits forced; fault-free and "
         "fault-injecting swarms are separate runs. distinct = hash of the sequence of (op kind, object slot, db kind, "
         "mode, k, hit/no-hit, fault kind and whether it fired). non-trivial = some object answered >= 2 lookups.")
 SIMULATED_TIME_NOTE = "no simulated clock (code reads none); logical time = op index in the history, counters.ops"
@@ -73,9 +74,13 @@ def gen_ref(rng, sw):
         ref = ["".join(rng.choice(a) for _ in range(rng.randint(lo, hi))) for _ in range(n)]
         if rng.random() < 0.06:
             ref[rng.randrange(n)] = ""
+    elif sw["style"] == "big":
+        n = rng.randint(60, 200)
+        lo, hi = sw["len_range"]
+        ref = ["".join(rng.choice(a) for _ in range(rng.randint(max(lo, 2), max(hi, 3)))) for _ in range(n)]
     else:
-        n = rng.randint(1, sw["max_members"])
-        L = rng.randint(8, 14)
+        n = rng.randint(1, sw["max_members"] if sw["style"] == "clonal" else 8)
+        L = rng.randint(8, 14) if sw["style"] == "clonal" else rng.randint(33, 70)
         seed = "".join(rng.choice(a) for _ in range(L))
         ref = []
         for _ in range(n):
@@ -91,7 +96,7 @@ def gen_ref(rng, sw):
 
 def gen_queries(rng, sw, ref, k, mode):
     a = sw["alphabet"]
-    nq = rng.randint(1, 6)
+    nq = rng.randint(1, 6 if sw["style"] != "long" else 4)
     subs = mode == "hamming" and rng.random() < 0.8
     out = []
     for qi in range(nq):
@@ -127,8 +132,8 @@ def gen_queries(rng, sw, ref, k, mode):
 
 def generate(seed, tier, index=0):
     rng = random.Random(seed)
-    style = rng.choice(["short", "short", "clonal"])
-    if style == "short":
+    style = rng.choice(["short"] * 8 + ["clonal"] * 7 + ["long"] * 3 + ["big"] * 2)
+    if style in ("short", "big"):
         alphabet = "".join(rng.sample(AA, rng.choice([2, 2, 3])))
     else:
         alphabet = "".join(rng.sample(AA, rng.choice([3, 6, 20])))
@@ -152,7 +157,7 @@ def generate(seed, tier, index=0):
     def new_build(slot):
         kind = rng.choice(sw["db_kinds"])
         ref = gen_ref(rng, sw)
-        k = rng.choice([1, 1, 2, 2, 3]) if kind == "symdel" else None
+        k = rng.choice([1, 1, 2, 2, 3] if style != "long" else [1, 2, 2]) if kind == "symdel" else None
         slots[slot] = {"kind": kind, "ref": ref, "k": k}
         ops.append({"op": "build", "slot": slot, "kind": kind, "ref": ref, "k": k})
 
